@@ -200,9 +200,23 @@ def resolve_not(function_body: List, params: Dict, mappings: Dict[str, Dict], co
     return not _extended_bool(resolve(function_body[0], params, mappings, conditions))
 
 
+def _as_text(value):
+    # `Fn::Equals` compares the string renderings of its operands: a boolean or a number that was not written in the
+    # template (a value read from a mapping, the result of a condition function) is compared as the text it renders to
+    if isinstance(value, bool):
+        return "true" if value else "false"
+    if isinstance(value, (int, float)):
+        return str(value)
+    if isinstance(value, list):
+        return [_as_text(entry) for entry in value]
+    return value
+
+
 def resolve_equals(function_body: List, params: Dict, mappings: Dict[str, Dict], conditions: Dict[str, bool]) -> bool:
     part_1, part_2 = function_body
-    return resolve(part_1, params, mappings, conditions) == resolve(part_2, params, mappings, conditions)
+    return _as_text(resolve(part_1, params, mappings, conditions)) == _as_text(
+        resolve(part_2, params, mappings, conditions)
+    )
 
 
 def resolve_base64(function_body: str, params: Dict, mappings: Dict[str, Dict], conditions: Dict[str, bool]) -> str:
